@@ -7,7 +7,7 @@ Python MA entries are `rx:tx` pairs.
   hop.py    HSN MAIO FN MA                      -> ok RX TX | EXC <class>       HoppingParams(hsn, maio, ma).resolve(fn)
   hop.pypnm N                                   -> PNM | EXC <class>            HoppingParams(1, 0, N entries)._pnm
   hop.freq  FH HSN MAIO FN MA RX0 TX0           -> init=<ok|EXC:c|-> rx=<v|None|EXC:c> tx=<…>
-                                                   Transceiver: [enable_fh if FH=1], get_rx_freq(fn), get_tx_freq(fn)
+                                                   Transceiver: [enable_fh if FH≥1], [disable_fh if FH=2], get_rx_freq(fn), get_tx_freq(fn)
   hop.fw    TYPE H SERV H0 FN T1 T2 T3 HSN MAIO N MA
                                                 -> ok ARFCN | oob-rn IDX | oob-ma MAI | divzero     rfch_get_params
   hop.fwfn  HSN MAIO N FN MA                    -> same; gsm_fn2gsmtime(fn) then rfch_get_params (type TCH_F, h = 1)
@@ -75,8 +75,8 @@ def handle : List String → Option String
       let (trx, ini) :=
         if fh = 0 then (trx, "-")
         else match trx.enableFh hsn maio ma with
-          | .ok t => (t, "ok")
-          | .error e => (trx, "EXC:" ++ excName e)
+          | .ok t => (if fh = 2 then t.disableFh else t, "ok")
+          | .error e => (if fh = 2 then trx.disableFh else trx, "EXC:" ++ excName e)
       pure s!"init={ini} rx={renderFreq (trx.getRxFreq fn)} tx={renderFreq (trx.getTxFreq fn)}"
   | ["hop.fw", ty, h, serv, h0, fn, t1, t2, t3, hsn, maio, n, ma] => do
       let v ← nats? [ty, h, serv, h0, fn, t1, t2, t3, hsn, maio, n]
